@@ -354,7 +354,10 @@ def gen_modspec(rng, name, big):
         r = rng.random()
         if above and r < 0.15:
             layers[rng.choice(above)]['params'].append(dict(lim, has_write=False, redeclared=True))
-        elif above and r < 0.23:
+        elif above and r < 0.23 and not layers[ll].get('mixin'):
+            # (not for a limit declared by a plain mixin: frappy attaches the automatic check when the first HasAccessibles
+            # class using the mixin is created - if that very class removes the limit again, no check is ever attached;
+            # the model attaches it to the declaring class.  No behaviour differs: the module has no such limit.)
             # a derived class REMOVES the inherited limit parameter (`<p>_max = None`, the way frappy removes an inherited
             # accessible): the module has no such limit any more
             layers[rng.choice(above)]['params'].append({'attr': lim['attr'], 'limit': lim['limit'], 'removed': True})
@@ -375,6 +378,13 @@ def gen_modspec(rng, name, big):
                 lim = {'attr': attr + '_' + lk, 'limit': attr, 'export': True,
                        'readonly': rng.random() < 0.1, 'has_write': rng.random() < 0.3, 'has_read': False}
                 add_limit(lim, layer)
+    # a derived class removes an inherited parameter altogether (`<p> = None`): requests for it must meet NoSuchParameter,
+    # whatever read_/write_/check_ methods and limit parameters the base classes still carry for it
+    with_limits = {q['limit'] for l in layers for q in l['params'] if q.get('limit')}   # (frappy refuses a limit without its parameter)
+    for layer, p in list(all_params):
+        above = [i for i in full if i > layer]
+        if 'readonly' in p and p['attr'] not in with_limits and above and rng.random() < 0.06:
+            layers[rng.choice(above)]['params'].append({'attr': p['attr'], 'limit': None, 'removed': True})
     if base in ('Writable', 'Drivable'):
         # target of the base class: give it a driver and limits
         tl = rng.choice(full)
@@ -420,8 +430,9 @@ def gen_modspec(rng, name, big):
         layers[0]['commands'].append({'attr': 'stop', 'arg': None, 'res': None, 'export': True})
     # configuration overrides
     cfg = {}
+    gone = {q['attr'] for l in layers for q in l['params'] if q.get('removed')}
     for layer, p in all_params:
-        if 'readonly' not in p:
+        if 'readonly' not in p or p['attr'] in gone:
             continue
         r = rng.random()
         if r < 0.08:
@@ -1190,9 +1201,16 @@ class Session:
 
     def __init__(self, nodespec):
         self.nodespec = nodespec
-        self.node, self.box, self.classes = build_node(nodespec)
-        node = self.node
         self.errors = []
+        try:
+            self.node, self.box, self.classes = build_node(nodespec)
+        except Exception as e:      # frappy refuses the class itself (ProgrammingError at class creation)
+            from frappy.errors import ProgrammingError, ConfigError
+            if not isinstance(e, (ProgrammingError, ConfigError)):
+                raise
+            self.errors = ['class creation: %r' % e]
+            return
+        node = self.node
         if node.errors or set(node.secnode.modules) != {ms['name'] for ms in nodespec['modules']}:
             self.errors = list(node.errors) or ['module missing']
             return
